@@ -279,7 +279,7 @@ def _cfgname(r):
 
 def _c05_runs(tier):
     if tier == "quick":
-        cfgs = [R("simd"), R("simd", dispatch="serial"), R("serial32", "rel-notables")]
+        cfgs = [R("simd"), R("simd", dispatch="serial"), R("serial32"), R("serial32", "rel-notables")]
         streams = ["C02", "C04", "C07", "C08", "C09", "C12", "C16"]
     else:
         cfgs = []
